@@ -493,7 +493,17 @@ class _CorpusReplay(object):
         return '%s#%d' % self.item[:2]
 
 
+class _Refval203(object):
+    def __init__(self, d):
+        self.d = d
+
+    def key(self):
+        return '203:%r' % sorted(self.d.items())
+
+
 def load_case(d):
+    if d.get('kind') == '203':
+        return _Refval203(d)
     if d.get('kind') == 'value':
         return ValueCase.from_json(d)
     if 'corpus_file' in d:
@@ -502,6 +512,13 @@ def load_case(d):
 
 
 def check_any(case):
+    if isinstance(case, _Refval203):
+        rep = Report(PID, 'quick', 0)
+        check_203_refvals(rep)
+        out = Outcome()
+        for clause, f in rep.failures.items():
+            out.fail(clause, **(f['detail'] if isinstance(f['detail'], dict) else {}))
+        return out
     if isinstance(case, _CorpusReplay):
         cc, out, excl = check_corpus(case.item)
         if out is None:
@@ -509,6 +526,46 @@ def check_any(case):
         out.failures = [('corpus: ' + c, d) for c, d in out.failures]
         return out
     return check_value_case(case) if isinstance(case, ValueCase) else check_fix(case)
+
+
+# ---- new reference values (203YYY): sign and YYY-1 magnitude bits ------------------------------------------------
+def check_203_refvals(rep):
+    """203YYY E 203255 E 203000 with the new reference value on, just inside and just outside what YYY bits hold as sign +
+    magnitude: inside -> written and read back exactly (and the element's value against it); outside -> refused, never
+    wrapped into the sign bit or truncated.  Uncompressed and compressed.  Deterministic."""
+    from refbufr import frame as rframe, tables as rtables2
+    B = rtables2.load_for(0, 0, 0, 33, 0).B
+    for e in (7001, 12101, 10004):
+        el = B[e]
+        for y in (2, 3, 8, 12, 16, 24):
+            m = 1 << (y - 1)
+            for r in (m - 1, -(m - 1), m, -m, 2 * m - 1, -(2 * m - 1), 2 * m, 0, -1):
+                for compressed in (False, True):
+                    n = 2 if compressed else 1
+                    meta = dict(rframe.default_meta(4))
+                    meta.update({'master_table_version': 33, 'n_subsets': n, 'is_compressed': compressed})
+                    v = Fraction(5 + r) / Fraction(10) ** el.scale
+                    v = int(v) if el.scale <= 0 and v.denominator == 1 else float(v)
+                    flat = rmessage.flat_json(meta, [203000 + y, e, 203255, e, 203000], [[r, v] for _ in range(n)])
+                    o = sut.call(encoder().process, flat)
+                    fits = abs(r) <= m - 1
+                    key = '203:%d:%d:%d:%s' % (e, y, r, compressed)
+                    rep.add_case(key, True, ['new_reference_value_' + ('inside' if fits else 'outside')], None)
+                    case_json = {'kind': '203', 'element': e, 'yyy': y, 'new_reference_value': r, 'compressed': compressed}
+                    if not fits:
+                        if o.ok:
+                            rep.add_failure('a new reference value that does not fit the sign + magnitude bits of 203YYY is not refused',
+                                            case_json, case_json, stage='new reference values')
+                        continue
+                    if not o.ok:
+                        rep.add_failure('a new reference value that fits 203YYY is refused: %s@%s' % (o.exc_type, o.frame),
+                                        dict(case_json, error=o.msg), case_json, stage='new reference values')
+                        continue
+                    d = sut.call(lambda: sut.observe(decoder().process(o.value.serialized_bytes))['values'])
+                    want = [[r, v] for _ in range(n)]
+                    if not d.ok or any(a[0] != w[0] or abs(a[1] - w[1]) > 1e-9 * max(1, abs(w[1])) for a, w in zip(d.value, want)):
+                        rep.add_failure('a new reference value (and the value coded against it) does not read back', dict(case_json, got=d.value if d.ok else d.msg, expected=want),
+                                        case_json, stage='new reference values')
 
 
 # ---- coverage-guided stage: the same generator and oracle, decisions taken from fuzzer bytes (vlib.fuzz) ----
@@ -536,6 +593,7 @@ def run(tier, seed):
     std.replay_files(rep, PID, check_any, load_case)
     n = 8000 if tier == 'quick' else 300000
     runner.run_generated(rep, gen_value_case, check_value_case, n, workers, stage='values')
+    check_203_refvals(rep)
     opts = gmsg.GenOpts(tier)
     opts.template = gtemplates.Opts(max_ids=14 if tier == 'quick' else 30)
     opts.max_subsets = 3
